@@ -113,6 +113,15 @@ Theorem C06_rows_checker_exact : forall cols h cands cap' rows,
   rows_okb cols h cands cap' rows = true <-> rows_spec cols h cands cap' rows.
 Proof. exact rows_okb_iff. Qed.
 
+(* the harness evaluates the same checks on column positions; on closed candidate lists they are equal *)
+Theorem C06_fast_rows_checker : forall cols h cands cap' rows, closed_pairsb cols cands = true ->
+  rows_okb_fast cols h cands cap' rows = rows_okb cols h cands cap' rows.
+Proof. exact rows_okb_fast_eq. Qed.
+
+Theorem C06_fast_cands_checker : forall cols h tro label cands, closed_pairsb cols cands = true ->
+  cands_okb_fast cols h tro label cands = cands_okb cols h tro label cands.
+Proof. exact cands_okb_fast_eq. Qed.
+
 Theorem C06_check_sound : forall c o, In (c_label c) (c_cols c) -> C06_check c o = true ->
   (forall p, uin p (o_cands o) <-> uin p (C06_cands c))
   /\ o_cap o = eff_cap (c_heur c) (c_cap c)
@@ -147,6 +156,8 @@ Print Assumptions C06_closed.
 Print Assumptions C06_requested.
 Print Assumptions C06_batch_spec.
 Print Assumptions C06_rows_checker_exact.
+Print Assumptions C06_fast_rows_checker.
+Print Assumptions C06_fast_cands_checker.
 Print Assumptions C06_check_sound.
 Print Assumptions C06_model_ok.
 Print Assumptions C06_sorted_set_canonical.
